@@ -364,4 +364,25 @@ theorem C08_comment_real_early (cfg : TagCfg) (pre t tail : Bytes) (m : M (List 
   · rw [Nat.add_assoc, hrun1, hrun2]
   · simp only [em, hdata]
 
+/-! ## Non-vacuity: the hypotheses hold for the lexer of a fresh (non-strict) parser -/
+
+/-- the lexer machine of a fresh parser -/
+def fresh : M (List Lexeme) :=
+  ⟨{ state := Gen.Syntax.table.dataState }, .lexer {}, { sink := [], sim := Sim.new false }⟩
+
+theorem fresh_clean : CleanData fresh 0 :=
+  ⟨⟨rfl, rfl, ⟨{}, rfl, rfl⟩, Or.inl rfl⟩, rfl, rfl, fun l h => by cases h; rfl⟩
+
+-- `<!---!-<--><b>`: the text `-!-<` is accepted; the comment lexeme is `[0, 11)`, text `[4, 8)`
+example (cfg : TagCfg) := C08_comment_real cfg [] [45, 33, 45, 60] [60, 98, 62] fresh {} (by decide) rfl rfl rfl rfl
+-- `<!--a-->b-->`: rejected; the comment ends early
+example (cfg : TagCfg) := C08_comment_real_early cfg [] [97, 45, 45, 62, 98] [45, 45, 62] fresh {} (by decide) rfl rfl rfl rfl
+-- `<Di-v x-y="a&quot;>b"><i>`
+example (cfg : TagCfg) := C08_attr_real cfg [] [68, 105, 45, 118] [120, 45, 121] [97, 34, 62, 98] [60, 105, 62] fresh
+  fresh_clean (by rfl) (by rfl)
+example (cfg : TagCfg) := C08_tagname_real cfg [] [68, 105, 45, 118] [120] fresh fresh_clean (by rfl)
+-- `a&lt;b<i>`
+example (cfg : TagCfg) := C08_text_real cfg [] [97, 60, 98] [97, 38, 108, 116, 59, 98] [60, 105, 62] fresh {}
+  (by decide) (by decide) (Or.inr ⟨_, rfl⟩) rfl rfl rfl rfl 5
+
 end LolHtml.Thm.C08Real
